@@ -169,7 +169,11 @@ func (ex *zzC13Exec) finish() {
 
 	ex.judgeSelf()
 	if ex.ref != nil && len(ex.fired) > 0 {
-		ex.judgeAgainstReference()
+		if ex.downBlocks > 0 {
+			ex.judgeAfterDowntime()
+		} else {
+			ex.judgeAgainstReference()
+		}
 	}
 }
 
@@ -218,6 +222,20 @@ func (ex *zzC13Exec) judgeSelf() {
 			// effect: judged here only if the restart introduced it.
 			if ex.ref == nil {
 				r.Count("probe_ref_contradictory_upstream_c12")
+			} else if ex.downBlocks > 0 && (!ex.contradictionAfterClose(idx) || ex.dustOnOurs(idx)) {
+				// Downtime arm: a fail-back issued BEFORE any commitment
+				// confirmed (dust on our own commitment, failed back when
+				// we broadcast) followed by a settle because the outage
+				// let the counterparty's claim on ITS commitment win is
+				// the same C12 finding, brought out by the outage instead
+				// of by the script; so is the fail-back of an HTLC that is
+				// dust on our commitment by a node that comes back past
+				// the HTLC's expiry with nothing of the close on disk yet
+				// (it broadcasts on its own, in StateDefault, before the
+				// chain watcher tells it again). Judged is a contradiction
+				// among the resolutions issued after the close for an HTLC
+				// that is not dust on our own commitment.
+				r.Count("probe_downtime_contradiction_with_pre_close_fail_back_c12")
 			} else if rm := ex.ref.msgs[idx]; !(rm["fail"] > 0 && rm["settle"] > 0) {
 				r.FailOrKnown("upstream-contradiction", ex.sig(), "%s: offered HTLC %d was both failed back (%d) and settled (%d) upstream; "+
 					"the uninterrupted run: %s", ex.where(), idx, m["fail"], m["settle"], zzC13MsgKind(rm))
@@ -425,6 +443,170 @@ func (ex *zzC13Exec) judgeAgainstReference() {
 	if ex.nurse != nil && ref.nurse != nil && o.fully == ref.fully {
 		ex.nurse.judgeAgainstReference(o.nurse, ref.nurse)
 	}
+}
+
+// judgeAfterDowntime: an execution in which the chain moved on while the node
+// was down. What the counterparty did meanwhile, what confirmed and which
+// preimages turned up keep their heights, so WHO ends up with an output - and
+// with it the resolver reports, the direction of an upstream resolution, the
+// transactions published - may legitimately differ from the uninterrupted
+// run. Judged is what C13 promises whatever the chain did: the node comes
+// back, "resumes from the recorded stage", "never loses a resolver" and still
+// "reaches the terminal outcome": every contract of the uninterrupted run is
+// a contract here, every offered HTLC that was resolved upstream there is
+// resolved upstream here (either way, never both: judgeSelf) unless its
+// preimage is known by the end (lnd does not fail back a dangling or dust HTLC
+// whose preimage it holds: checkRemoteDanglingActions / checkLocalDanglingActions;
+// a preimage that turned up during the outage changes that decision), no nursery
+// output is left unswept, and the channel is marked fully resolved - within
+// the reference's number of blocks plus twice the outage plus six.
+func (ex *zzC13Exec) judgeAfterDowntime() {
+	r, o, ref := ex.r, ex.out, ex.ref
+	where, sig := ex.where(), ex.sig()
+	if o.closeKind != ref.closeKind {
+		r.Count("probe_downtime_scenario_diverged")
+		return
+	}
+	if ref.fully && !o.fully && ex.lostRaceOnly(o.left) {
+		r.Count("probe_downtime_resolver_stuck_after_counterparty_won_output")
+	} else if ref.fully && !o.fully {
+		nsig := sig
+		if len(o.left) > 0 {
+			all := true
+			for _, k := range o.left {
+				if _, ok := ex.resolvedAtRestart[k]; !ok {
+					all = false
+				}
+			}
+			if all {
+				nsig = "resolver-persisted-as-resolved-but-not-removed"
+			}
+		}
+		r.FailOrKnown("never-marked-resolved", nsig,
+			"%s: the uninterrupted run ends with the channel marked fully resolved; after the restart the channel stays in state %s "+
+				"with unresolved contracts %v for %d blocks beyond the reference's last block", where, o.terminal, o.left, ex.slackUsed+ex.downBlocks)
+	}
+	refKeys, keys := map[string]int{}, map[string]int{}
+	for _, k := range ref.keys {
+		refKeys[k] = 1
+	}
+	for _, k := range o.keys {
+		keys[k] = 1
+	}
+	if lost := zzC13SetDiff(refKeys, keys); len(lost) > 0 {
+		r.FailOrKnown("resolver-lost", sig, "%s: contract resolver(s) %v of the uninterrupted run never appear in the log", where, lost)
+	}
+	differs := false
+	for i, rm := range ref.msgs {
+		want, got := zzC13MsgKind(rm), zzC13MsgKind(o.msgs[i])
+		if want != "" && got == "" && o.fully && !ex.preimageKnown(i) && ex.dustOnConfirmed(i) {
+			// no output, no resolver: failing it back is a decision of the
+			// state machine at a height (HtlcFailDustAction: C12 and its
+			// recorded finding - never executed once the node has
+			// broadcast on its own, which a node that comes back late does)
+			r.Count("probe_downtime_dust_fail_back_not_repeated_c12")
+		} else if want != "" && got == "" && o.fully && !ex.preimageKnown(i) {
+			r.FailOrKnown("upstream-resolution-lost", sig, "%s: offered HTLC %d is %s upstream in the uninterrupted run, here the channel is fully resolved and the HTLC was never resolved upstream",
+				where, i, want)
+		}
+		if want != got {
+			differs = true
+		}
+	}
+	for k, v := range ref.reports {
+		if o.reports[k] != v {
+			differs = true
+		}
+	}
+	if differs {
+		// reach: the outage did change who got what
+		r.Count("probe_downtime_outcome_differs_from_reference")
+	}
+	if ex.slackUsed > 6 {
+		r.Count("probe_downtime_needed_more_than_six_blocks")
+	}
+	ex.judgeStages()
+	if ex.nurse != nil && o.nurse != nil && ref.nurse != nil {
+		ex.nurse.judgeAfterDowntime(o.nurse, ref.nurse, where, sig)
+	}
+}
+
+// contradictionAfterClose: was offered HTLC idx both failed and settled
+// upstream by resolutions issued after the close event was first delivered?
+func (ex *zzC13Exec) contradictionAfterClose(idx uint64) bool {
+	fail, settle := false, false
+	for _, e := range ex.w.effects {
+		if e.idx != idx || ex.closeStim == 0 || e.stim < ex.closeStim {
+			continue
+		}
+		switch e.kind {
+		case "msg-fail":
+			fail = true
+		case "msg-settle":
+			settle = true
+		}
+	}
+	return fail && settle
+}
+
+// lostRaceOnly: every contract left in the log is an HTLC output that the
+// counterparty took. A resolver that waits for its own second-level claim
+// after the counterparty's transaction won the output (legacy success path:
+// resolveLegacySuccessTx hands the output to the nursery and waits for a
+// second-level output that will never exist) is stuck in an uninterrupted run
+// with the same chain events too; the outage only changed who won the race.
+func (ex *zzC13Exec) lostRaceOnly(left []string) bool {
+	if len(left) == 0 {
+		return false
+	}
+	for _, k := range left {
+		hit := false
+		for op := range ex.chain.byRemote {
+			if op.String() == k {
+				hit = true
+			}
+		}
+		if !hit {
+			return false
+		}
+	}
+	return true
+}
+
+func (ex *zzC13Exec) offered(idx uint64) *zzHtlc {
+	for _, h := range ex.w.m.htlcs {
+		if !h.incoming && h.id == idx {
+			return h
+		}
+	}
+	return nil
+}
+
+// dustOnOurs: offered HTLC idx has no output on our own commitment while
+// another commitment confirmed.
+func (ex *zzC13Exec) dustOnOurs(idx uint64) bool {
+	h := ex.offered(idx)
+	return h != nil && h.dust[zzSetL] && ex.w.closeDelivered != "local"
+}
+
+// dustOnConfirmed: offered HTLC idx has no output on the commitment that
+// confirmed (or no commitment of ours and theirs confirmed at all).
+func (ex *zzC13Exec) dustOnConfirmed(idx uint64) bool {
+	h := ex.offered(idx)
+	set := ex.chain.confSet()
+	return h != nil && set >= 0 && h.dust[set]
+}
+
+// preimageKnown: does the node hold the preimage of offered HTLC idx at the
+// end of the execution?
+func (ex *zzC13Exec) preimageKnown(idx uint64) bool {
+	m := ex.w.m
+	for _, h := range m.htlcs {
+		if !h.incoming && h.id == idx {
+			return m.known(h.hashNo)
+		}
+	}
+	return false
 }
 
 func zzC13MsgKind(m map[string]int) string {
